@@ -387,6 +387,9 @@ func (n1 numDatum) equalTo(n2 Datum) error {
 }
 
 func (n numDatum) Boolean(context string) bool {
+	if math.IsNaN(n.num) {
+		return false
+	}
 	if n.num != 0 {
 		return true
 	}
